@@ -53,6 +53,17 @@ func (r *Run) Rule(id, doc string) {
 }
 
 func (r *Run) add(o Obligation) {
+	// the same construct visited again (deferred call replayed at several exits, literal
+	// inlined twice): one obligation, verdicts and-ed
+	for i := range r.Obls {
+		e := &r.Obls[i]
+		if e.Rule == o.Rule && e.Pos == o.Pos && e.What == o.What && stripOrd(e.Key) == o.Key {
+			if !o.OK && e.OK {
+				e.OK, e.Detail, e.Nontrivial = false, o.Detail, true
+			}
+			return
+		}
+	}
 	// keys are unique per run: equal constructs get an ordinal suffix in source order
 	base := o.Rule + "|" + o.Key
 	r.seen[base]++
@@ -60,6 +71,15 @@ func (r *Run) add(o Obligation) {
 		o.Key = o.Key + "#" + strconv.Itoa(n)
 	}
 	r.Obls = append(r.Obls, o)
+}
+
+func stripOrd(k string) string {
+	if i := strings.LastIndexByte(k, '#'); i > 0 {
+		if _, err := strconv.Atoi(k[i+1:]); err == nil {
+			return k[:i]
+		}
+	}
+	return k
 }
 
 // Pass records a discharged obligation.
@@ -229,6 +249,13 @@ func (r *Run) Finish(explanation string) int {
 				tag = "KNOWN"
 			}
 			fmt.Printf("   %s %s %s [%s] %s — %s\n", tag, o.Pos, o.Rule, o.Key, o.What, o.Detail)
+		}
+	}
+	if os.Getenv("VERIF_VERBOSE") != "" {
+		for _, o := range r.Obls {
+			if o.OK {
+				fmt.Printf("   ok   %s %s [%s] %s\n", o.Pos, o.Rule, o.Key, o.What)
+			}
 		}
 	}
 	for _, n := range r.Notes {
